@@ -95,6 +95,7 @@ Proof.
   intros Hais Hs. unfold hc_decide.
   destruct ((status =? ARES_EDESTRUCTION) || (status =? ARES_ECANCELLED)) eqn:E1.
   { intros [= <- _]. intros ->. apply orb_prop in E1. destruct E1 as [E|E]; apply Z.eqb_eq in E; discriminate E. }
+  destruct (hs_nomem nodata); [intros [= <- _]; discriminate|].
   destruct (negb (ais =? ARES_SUCCESS) && negb (ais =? ARES_ENODATA)) eqn:E2.
   { destruct Hais as [-> | ->]; discriminate E2. }
   destruct (negb (is_nil (ai_nodes ai))) eqn:E3.
@@ -126,17 +127,17 @@ Proof.
       destruct (hc_parse_nodes family port ai r Hr Hall) as [Hn Hst].
       pose proof (hc_parse_success_nodes family port ai r Hr Hall) as Hsn.
       destruct (hc_parse family port ai r) as [ais ai1] eqn:Ep. cbn [fst snd] in *.
-      destruct (hc_decide sl (qres_status r) ais ai1 nodata) as [d0 nd0] eqn:Ed.
+      destruct (hc_decide sl (qres_status r) ais ai1 (hc_note (qres_status r) ais false nodata)) as [d0 nd0] eqn:Ed.
       injection Hrun as <- <- <-.
       split; [cbn [flat_map]; rewrite app_nil_r; exact Hn|].
-      apply (hc_decide_cases sl (qres_status r) ais ai1 nodata d0 nd0 Hst); [|exact Ed].
+      apply (hc_decide_cases sl (qres_status r) ais ai1 (hc_note (qres_status r) ais false nodata) d0 nd0 Hst); [|exact Ed].
       intros Hs Ha. apply Hsn; assumption.
     + (* another sub-query is still outstanding *)
       cbn [firstn] in Hwf. inversion Hwf as [|? ? Hr Hrest]; subst.
       destruct (hc_parse_nodes family port ai r Hr Hall) as [Hn _].
       pose proof (hc_parse_wanted family port ai r Hr Hall) as Hw.
       destruct (hc_parse family port ai r) as [ais ai1] eqn:Ep. cbn [fst snd] in *.
-      destruct (IH (S rem) ai1 nodata d ai' nodata' ltac:(lia) Hrest Hw Hrun) as [Hn2 Hd].
+      destruct (IH (S rem) ai1 (hc_note (qres_status r) ais true nodata) d ai' nodata' ltac:(lia) Hrest Hw Hrun) as [Hn2 Hd].
       split; [|exact Hd].
       rewrite Hn2, Hn. cbn [firstn flat_map]. rewrite app_assoc. reflexivity.
 Qed.
@@ -175,17 +176,18 @@ Lemma hc_decide_next_status sl status ais ai nodata st nodata' :
 Proof.
   unfold hc_decide.
   destruct ((status =? ARES_EDESTRUCTION) || (status =? ARES_ECANCELLED)); [discriminate|].
+  destruct (hs_nomem nodata); [discriminate|].
   destruct (negb (ais =? ARES_SUCCESS) && negb (ais =? ARES_ENODATA)).
   { destruct ((ais =? ARES_EBADRESP) && negb (is_nil (ai_nodes ai))); discriminate. }
   destruct (negb (is_nil (ai_nodes ai))); [discriminate|].
   destruct ((status =? ARES_ENOTFOUND) || (status =? ARES_ENODATA) || (ais =? ARES_ENODATA)) eqn:E4.
   { destruct ((status =? ARES_ENODATA) || (ais =? ARES_ENODATA)) eqn:E5; cbn [Nat.eqb].
     - intros [= <- _]. discriminate.
-    - destruct (Nat.eqb nodata 0); intros [= <- _]; [|discriminate].
+    - destruct (Nat.eqb (hs_nodata nodata) 0); intros [= <- _]; [|discriminate].
       apply orb_false_elim in E5. destruct E5 as [E5 E6]. rewrite E5, E6, !orb_false_r in E4.
       apply Z.eqb_eq in E4. rewrite E4. discriminate. }
   destruct (((status =? ARES_ESERVFAIL) || (status =? ARES_EREFUSED)) && sl) eqn:E5; [|discriminate].
-  destruct (Nat.eqb nodata 0); intros [= <- _]; [|discriminate].
+  destruct (Nat.eqb (hs_nodata nodata) 0); intros [= <- _]; [|discriminate].
   apply andb_prop in E5. destruct E5 as [E5 _]. apply orb_prop in E5.
   destruct E5 as [E|E]; apply Z.eqb_eq in E; rewrite E; discriminate.
 Qed.
@@ -196,9 +198,9 @@ Proof.
   induction arrivals as [|r rest IH]; intros remaining ai nodata st ai' nodata' Hrun; [discriminate|].
   cbn [run_round] in Hrun. destruct (hc_parse family port ai r) as [ais ai1].
   destruct remaining as [|[|rem]].
-  - destruct (hc_decide sl (qres_status r) ais ai1 nodata) as [d0 nd0] eqn:Ed. injection Hrun as -> _ _.
+  - destruct (hc_decide sl (qres_status r) ais ai1 (hc_note (qres_status r) ais false nodata)) as [d0 nd0] eqn:Ed. injection Hrun as -> _ _.
     exact (hc_decide_next_status _ _ _ _ _ _ _ Ed).
-  - destruct (hc_decide sl (qres_status r) ais ai1 nodata) as [d0 nd0] eqn:Ed. injection Hrun as -> _ _.
+  - destruct (hc_decide sl (qres_status r) ais ai1 (hc_note (qres_status r) ais false nodata)) as [d0 nd0] eqn:Ed. injection Hrun as -> _ _.
     exact (hc_decide_next_status _ _ _ _ _ _ _ Ed).
   - exact (IH _ _ _ _ _ _ Hrun).
 Qed.
@@ -313,11 +315,11 @@ Proof.
       [apply orb_prop in Ev; destruct Ev as [Ev|Ev]|]; apply Z.eqb_eq in Ev; auto. }
   destruct (fake_addrinfo name family port flags p4 p6) as [|lit|fst]; [|intros [= <-]; reflexivity|discriminate].
   change (negb (ARES_SUCCESS =? ARES_SUCCESS)) with false. cbv iota.
-  destruct (next_lookup hf name family port flags lookups rounds ai_empty 0 ARES_ECONNREFUSED) as [[st ai1]| |] eqn:En;
+  destruct (next_lookup hf name family port flags lookups rounds ai_empty hst0 ARES_ECONNREFUSED) as [[st ai1]| |] eqn:En;
     cbn [bind]; try discriminate.
   destruct (Z.eqb_spec st ARES_SUCCESS) as [E|E]; [|intros [= Hx]; congruence].
   intros [= _ <-].
-  apply (next_lookup_spec hf name family port flags lookups rounds ai_empty 0 ARES_ECONNREFUSED st ai1 Hf Hwf eq_refl);
+  apply (next_lookup_spec hf name family port flags lookups rounds ai_empty hst0 ARES_ECONNREFUSED st ai1 Hf Hwf eq_refl);
     [discriminate | exact En | exact E].
 Qed.
 
@@ -529,3 +531,282 @@ Proof. vm_compute. reflexivity. Qed.
 
 Example ex_rounds_wf : Forall (round_wf LEG_AF_UNSPEC) ex_rounds.
 Proof. repeat constructor; discriminate. Qed.
+
+(* ------------------------------------------------------------------------------------ *)
+(* hosts file: completeness of the merge                                                 *)
+(* ------------------------------------------------------------------------------------ *)
+Lemma lower_eqb_refl c : (lower c =? lower c) = true. Proof. apply Z.eqb_refl. Qed.
+Lemma strcaseeq_refl s : strcaseeq s s = true.
+Proof. induction s as [|c s IH]; [reflexivity|]. cbn. rewrite Z.eqb_refl, IH. reflexivity. Qed.
+
+Lemma bin_eqb_eq a : forall b, bin_eqb a b = true <-> a = b.
+Proof.
+  induction a as [|x a IH]; intros [|y b]; cbn; split; try discriminate; try reflexivity.
+  - intros H. apply andb_prop in H. destruct H as [H1 H2]. apply Z.eqb_eq in H1. apply IH in H2. congruence.
+  - intros [= -> ->]. rewrite Z.eqb_refl. apply IH. reflexivity.
+Qed.
+Lemma ipkey_eqb_eq a b : ipkey_eqb a b = true <-> a = b.
+Proof.
+  destruct a as [f1 a1], b as [f2 a2]. unfold ipkey_eqb. cbn [fst snd]. split.
+  - intros H. apply andb_prop in H. destruct H as [H1 H2]. apply Z.eqb_eq in H1. apply bin_eqb_eq in H2. congruence.
+  - intros [= -> ->]. rewrite Z.eqb_refl. apply bin_eqb_eq. reflexivity.
+Qed.
+
+Lemma host_get_app h t k v : host_get h k = Some v -> host_get (h ++ t) k = Some v.
+Proof. induction h as [|[k' v'] h IH]; cbn; [discriminate|]. destruct (strcaseeq k' k); auto. Qed.
+Lemma host_get_app_none h t k : host_get h k = None -> host_get (h ++ t) k = host_get t k.
+Proof. induction h as [|[k' v'] h IH]; cbn; [reflexivity|]. destruct (strcaseeq k' k); [discriminate | auto]. Qed.
+Lemma ip_get_app h t k v : ip_get h k = Some v -> ip_get (h ++ t) k = Some v.
+Proof. induction h as [|[k' v'] h IH]; cbn; [discriminate|]. destruct (ipkey_eqb k' k); auto. Qed.
+Lemma ip_get_app_none h t k : ip_get h k = None -> ip_get (h ++ t) k = ip_get t k.
+Proof. induction h as [|[k' v'] h IH]; cbn; [reflexivity|]. destruct (ipkey_eqb k' k); [discriminate | auto]. Qed.
+
+Lemma hosthash_add_stable names i : forall h k v, host_get h k = Some v -> host_get (hosthash_add h names i) k = Some v.
+Proof.
+  induction names as [|x t IH]; intros h k v H; cbn [hosthash_add]; [exact H|].
+  apply IH. destruct (host_get h x); [exact H | apply host_get_app; exact H].
+Qed.
+
+(* a key found after the additions was there before, or maps to the entry the line joined *)
+Lemma hosthash_add_cases names i : forall h k v, host_get (hosthash_add h names i) k = Some v ->
+  host_get h k = Some v \/ (v = i /\ exists y, In y names /\ strcaseeq y k = true).
+Proof.
+  induction names as [|x t IH]; intros h k v H; cbn [hosthash_add] in H; [left; exact H|].
+  apply IH in H. destruct H as [H | (-> & y & Hy & Hc)]; [|right; split; [reflexivity|]; exists y; split; [right; exact Hy | exact Hc]].
+  destruct (host_get h x) eqn:Ex; [left; exact H|].
+  destruct (host_get h k) as [w|] eqn:Ek.
+  - left. rewrite (host_get_app h [(x, i)] k w Ek) in H. exact H.
+  - rewrite (host_get_app_none h _ k Ek) in H. cbn in H. destruct (strcaseeq x k) eqn:Ec; [|discriminate].
+    injection H as <-. right. split; [reflexivity|]. exists x. split; [left; reflexivity | exact Ec].
+Qed.
+
+Lemma hosthash_add_in names i : forall h x, In x names -> exists j, host_get (hosthash_add h names i) x = Some j.
+Proof.
+  induction names as [|y t IH]; intros h x Hin; [destruct Hin|]. cbn [hosthash_add].
+  destruct Hin as [-> | Hin]; [|apply IH; exact Hin].
+  destruct (host_get h x) as [j|] eqn:E.
+  - exists j. apply hosthash_add_stable. exact E.
+  - exists i. apply hosthash_add_stable. rewrite (host_get_app_none h _ x E). cbn. rewrite strcaseeq_refl. reflexivity.
+Qed.
+
+Lemma update_entry_length es i f : length (update_entry es i f) = length es.
+Proof.
+  unfold update_entry. destruct (nth_error es i) as [e|] eqn:E; [|reflexivity].
+  assert (Hi : (i < length es)%nat) by (apply nth_error_Some; congruence).
+  rewrite app_length, firstn_length. cbn [length]. rewrite skipn_length. lia.
+Qed.
+Lemma update_entry_same es i f e : nth_error es i = Some e -> nth_error (update_entry es i f) i = Some (f e).
+Proof.
+  intros E. unfold update_entry. rewrite E.
+  assert (Hi : (i < length es)%nat) by (apply nth_error_Some; congruence).
+  rewrite nth_error_app2 by (rewrite firstn_length; lia). rewrite firstn_length.
+  replace (i - Nat.min i (length es))%nat with 0%nat by lia. reflexivity.
+Qed.
+Lemma update_entry_other es i f j : j <> i -> nth_error (update_entry es i f) j = nth_error es j.
+Proof.
+  intros Hne. unfold update_entry. destruct (nth_error es i) as [e|] eqn:E; [|reflexivity].
+  assert (Hi : (i < length es)%nat) by (apply nth_error_Some; congruence).
+  destruct (Nat.lt_ge_cases j i) as [Hl|Hg].
+  - rewrite nth_error_app1 by (rewrite firstn_length; lia). apply nth_error_firstn_lt'. exact Hl.
+  - rewrite nth_error_app2 by (rewrite firstn_length; lia). rewrite firstn_length.
+    replace (Nat.min i (length es)) with i by lia.
+    destruct (j - i)%nat as [|d] eqn:Ed; [lia|]. cbn [nth_error]. rewrite nth_error_skipn'. f_equal. lia.
+Qed.
+
+(* invariant of the parsed file: hash values are entry indices, every hashed address is in its
+   entry, every hashed name is a name of a line read so far *)
+Definition hf_inv (lines : list hline) (hf : hfile) : Prop :=
+  (forall k i, host_get (hf_hosthash hf) k = Some i -> (i < length (hf_entries hf))%nat) /\
+  (forall ip i, ip_get (hf_iphash hf) ip = Some i -> exists e, nth_error (hf_entries hf) i = Some e /\ In ip (he_ips e)) /\
+  (forall k i, host_get (hf_hosthash hf) k = Some i -> exists l y, In l lines /\ In y (hl_hosts l) /\ strcaseeq y k = true).
+
+
+Lemma first_host_match_some h hosts i : first_host_match h hosts = Some i -> exists y, In y hosts /\ host_get h y = Some i.
+Proof.
+  induction hosts as [|x t IH]; cbn; [discriminate|]. destruct (host_get h x) as [j|] eqn:E.
+  - intros [= <-]. exists x. split; [left; reflexivity | exact E].
+  - intros H. destruct (IH H) as (y & Hy & Ey). exists y. split; [right; exact Hy | exact Ey].
+Qed.
+
+Lemma ip_get_found h k i : ip_get h k = Some i -> In (k, i) h.
+Proof.
+  induction h as [|[k' v] h IH]; cbn; [discriminate|]. destruct (ipkey_eqb k' k) eqn:E.
+  - intros [= <-]. apply ipkey_eqb_eq in E. subst. left; reflexivity.
+  - intros H. right. exact (IH H).
+Qed.
+
+Lemma fresh_in (h : list (str * nat)) hosts x : In x hosts -> host_get h x = None ->
+  In x (filter (fun y => match host_get h y with Some _ => false | None => true end) hosts).
+Proof. intros Hin E. apply filter_In. split; [exact Hin | rewrite E; reflexivity]. Qed.
+
+Lemma fresh_incl (h : list (str * nat)) hosts y :
+  In y (filter (fun y => match host_get h y with Some _ => false | None => true end) hosts) -> In y hosts.
+Proof. intros H. apply filter_In in H. apply H. Qed.
+
+Lemma added_maps_to h names i x : In x names -> host_get h x = None -> host_get (hosthash_add h names i) x = Some i.
+Proof.
+  intros Hin E. destruct (hosthash_add_in names i h x Hin) as [j Hj].
+  destruct (hosthash_add_cases names i h x j Hj) as [H | [-> _]]; [congruence | exact Hj].
+Qed.
+
+Lemma hosts_add_step lines hf l : hf_inv lines hf ->
+  hf_inv (lines ++ [l]) (hosts_add hf l) /\
+  (forall k i, host_get (hf_hosthash hf) k = Some i -> host_get (hf_hosthash (hosts_add hf l)) k = Some i) /\
+  (forall ip i, ip_get (hf_iphash hf) ip = Some i -> ip_get (hf_iphash (hosts_add hf l)) ip = Some i) /\
+  (forall i e, nth_error (hf_entries hf) i = Some e ->
+     exists e', nth_error (hf_entries (hosts_add hf l)) i = Some e' /\ incl (he_ips e) (he_ips e')) /\
+  (exists i e', ip_get (hf_iphash (hosts_add hf l)) (hl_ip l) = Some i /\
+     nth_error (hf_entries (hosts_add hf l)) i = Some e' /\ In (hl_ip l) (he_ips e') /\
+     forall x, In x (hl_hosts l) -> host_get (hf_hosthash hf) x = None ->
+               host_get (hf_hosthash (hosts_add hf l)) x = Some i).
+Proof.
+  intros (I1 & I2 & I3). unfold hosts_add.
+  set (fresh := filter (fun x => match host_get (hf_hosthash hf) x with Some _ => false | None => true end) (hl_hosts l)).
+  assert (I3' : forall names i k j, (forall y, In y names -> In y (hl_hosts l)) ->
+            host_get (hosthash_add (hf_hosthash hf) names i) k = Some j ->
+            exists l0 y, In l0 (lines ++ [l]) /\ In y (hl_hosts l0) /\ strcaseeq y k = true).
+  { intros names i k j Hsub H. destruct (hosthash_add_cases names i _ k j H) as [H0 | (_ & y & Hy & Hc)].
+    - destruct (I3 k j H0) as (l0 & y & Hl0 & Hy & Hc). exists l0, y. split; [apply in_or_app; left; exact Hl0 | auto].
+    - exists l, y. split; [apply in_or_app; right; left; reflexivity | split; [apply Hsub; exact Hy | exact Hc]]. }
+  unfold hosts_match.
+  destruct (ip_get (hf_iphash hf) (hl_ip l)) as [i|] eqn:Eip.
+  - (* the address is known: the names join its entry *)
+    destruct (I2 _ _ Eip) as (e & Ee & Hin).
+    assert (Hi : (i < length (hf_entries hf))%nat) by (apply nth_error_Some; congruence).
+    cbv beta iota. unfold hf_inv. cbn [hf_entries hf_iphash hf_hosthash].
+    split; [split; [|split]|split; [|split; [|split]]].
+    + intros k j H. rewrite update_entry_length. destruct (hosthash_add_cases fresh i _ k j H) as [H0 | [-> _]]; [exact (I1 k j H0) | exact Hi].
+    + intros ip j H. destruct (I2 ip j H) as (e0 & E0 & Hin0). destruct (Nat.eq_dec j i) as [->|Hne].
+      * rewrite (update_entry_same _ _ _ e Ee). eexists. split; [reflexivity|]. cbn [he_ips]. congruence.
+      * rewrite (update_entry_other _ _ _ _ Hne). eauto.
+    + intros k j H. apply (I3' fresh i k j); [apply fresh_incl | exact H].
+    + intros k j H. apply hosthash_add_stable. exact H.
+    + auto.
+    + intros j e0 E0. destruct (Nat.eq_dec j i) as [->|Hne].
+      * rewrite (update_entry_same _ _ _ e Ee). eexists. split; [reflexivity|]. cbn [he_ips]. rewrite Ee in E0. injection E0 as <-. apply incl_refl.
+      * rewrite (update_entry_other _ _ _ _ Hne). exists e0. split; [exact E0 | apply incl_refl].
+    + exists i. eexists. split; [exact Eip|]. split; [apply (update_entry_same _ _ _ e Ee)|]. cbn [he_ips]. split; [exact Hin|].
+      intros x Hx Ex. apply added_maps_to; [apply fresh_in; assumption | exact Ex].
+  - destruct (first_host_match (hf_hosthash hf) (hl_hosts l)) as [i|] eqn:Eh.
+    + (* a name of the line is known: the address joins that entry *)
+      destruct (first_host_match_some _ _ _ Eh) as (y0 & Hy0 & Ey0).
+      assert (Hi : (i < length (hf_entries hf))%nat) by exact (I1 _ _ Ey0).
+      destruct (nth_error (hf_entries hf) i) as [e|] eqn:Ee; [|apply nth_error_None in Ee; lia].
+      cbv beta iota. unfold hf_inv. cbn [hf_entries hf_iphash hf_hosthash].
+      split; [split; [|split]|split; [|split; [|split]]].
+      * intros k j H. rewrite update_entry_length. destruct (hosthash_add_cases fresh i _ k j H) as [H0 | [-> _]]; [exact (I1 k j H0) | exact Hi].
+      * intros ip j H. destruct (ip_get (hf_iphash hf) ip) as [j0|] eqn:E0.
+        -- rewrite (ip_get_app _ _ _ _ E0) in H. injection H as <-. destruct (I2 ip j0 E0) as (e0 & Ee0 & Hin0).
+           destruct (Nat.eq_dec j0 i) as [->|Hne].
+           ++ rewrite (update_entry_same _ _ _ e Ee). eexists. split; [reflexivity|]. cbn [he_ips]. apply in_or_app. left. congruence.
+           ++ rewrite (update_entry_other _ _ _ _ Hne). eauto.
+        -- rewrite (ip_get_app_none _ _ _ E0) in H. cbn in H. destruct (ipkey_eqb (hl_ip l) ip) eqn:Ek; [|discriminate].
+           injection H as <-. apply ipkey_eqb_eq in Ek. subst ip.
+           rewrite (update_entry_same _ _ _ e Ee). eexists. split; [reflexivity|]. cbn [he_ips]. apply in_or_app. right. left. reflexivity.
+      * intros k j H. apply (I3' fresh i k j); [apply fresh_incl | exact H].
+      * intros k j H. apply hosthash_add_stable. exact H.
+      * intros ip j H. apply ip_get_app. exact H.
+      * intros j e0 E0. destruct (Nat.eq_dec j i) as [->|Hne].
+        -- rewrite (update_entry_same _ _ _ e Ee). eexists. split; [reflexivity|]. cbn [he_ips]. rewrite Ee in E0. injection E0 as <-. apply incl_appl, incl_refl.
+        -- rewrite (update_entry_other _ _ _ _ Hne). exists e0. split; [exact E0 | apply incl_refl].
+      * exists i. eexists. split; [|split; [apply (update_entry_same _ _ _ e Ee)|]].
+        -- rewrite (ip_get_app_none _ _ _ Eip). cbn. rewrite (proj2 (ipkey_eqb_eq _ _) eq_refl). reflexivity.
+        -- cbn [he_ips]. split; [apply in_or_app; right; left; reflexivity|].
+           intros x Hx Ex. apply added_maps_to; [apply fresh_in; assumption | exact Ex].
+    + (* nothing known: a new entry *)
+      cbv beta iota. unfold hf_inv. cbn [hf_entries hf_iphash hf_hosthash].
+      set (i := length (hf_entries hf)).
+      assert (Hnew : nth_error (hf_entries hf ++ [mkHEntry [hl_ip l] (hl_hosts l)]) i = Some (mkHEntry [hl_ip l] (hl_hosts l))).
+      { unfold i. rewrite nth_error_app2 by lia. rewrite Nat.sub_diag. reflexivity. }
+      assert (Hold : forall j e0, nth_error (hf_entries hf) j = Some e0 -> nth_error (hf_entries hf ++ [mkHEntry [hl_ip l] (hl_hosts l)]) j = Some e0).
+      { intros j e0 E0. rewrite nth_error_app1; [exact E0 | apply nth_error_Some; congruence]. }
+      split; [split; [|split]|split; [|split; [|split]]].
+      * intros k j H. rewrite app_length. cbn [length]. destruct (hosthash_add_cases (hl_hosts l) i _ k j H) as [H0 | [-> _]]; [specialize (I1 k j H0); lia | unfold i; lia].
+      * intros ip j H. destruct (ip_get (hf_iphash hf) ip) as [j0|] eqn:E0.
+        -- rewrite (ip_get_app _ _ _ _ E0) in H. injection H as <-. destruct (I2 ip j0 E0) as (e0 & Ee0 & Hin0). exists e0. split; [apply Hold; exact Ee0 | exact Hin0].
+        -- rewrite (ip_get_app_none _ _ _ E0) in H. cbn in H. destruct (ipkey_eqb (hl_ip l) ip) eqn:Ek; [|discriminate].
+           injection H as <-. apply ipkey_eqb_eq in Ek. subst ip. eexists. split; [exact Hnew | left; reflexivity].
+      * intros k j H. apply (I3' (hl_hosts l) i k j); [auto | exact H].
+      * intros k j H. apply hosthash_add_stable. exact H.
+      * intros ip j H. apply ip_get_app. exact H.
+      * intros j e0 E0. exists e0. split; [apply Hold; exact E0 | apply incl_refl].
+      * exists i. eexists. split; [|split; [exact Hnew|]].
+        -- rewrite (ip_get_app_none _ _ _ Eip). cbn. rewrite (proj2 (ipkey_eqb_eq _ _) eq_refl). reflexivity.
+        -- cbn [he_ips]. split; [left; reflexivity|]. intros x Hx Ex. apply added_maps_to; assumption.
+Qed.
+
+Definition hf_le (a b : hfile) : Prop :=
+  (forall k i, host_get (hf_hosthash a) k = Some i -> host_get (hf_hosthash b) k = Some i) /\
+  (forall ip i, ip_get (hf_iphash a) ip = Some i -> ip_get (hf_iphash b) ip = Some i) /\
+  (forall i e, nth_error (hf_entries a) i = Some e -> exists e', nth_error (hf_entries b) i = Some e' /\ incl (he_ips e) (he_ips e')).
+
+Lemma hf_le_refl a : hf_le a a.
+Proof. split; [auto|]. split; [auto|]. intros i e E. exists e. split; [exact E | apply incl_refl]. Qed.
+Lemma hf_le_trans a b c : hf_le a b -> hf_le b c -> hf_le a c.
+Proof.
+  intros (A1 & A2 & A3) (B1 & B2 & B3). split; [auto|]. split; [auto|].
+  intros i e E. destruct (A3 i e E) as (e1 & E1 & H1). destruct (B3 i e1 E1) as (e2 & E2 & H2).
+  exists e2. split; [exact E2 | eapply incl_tran; eassumption].
+Qed.
+
+Lemma hosts_fold_grow ls : forall pre hf, hf_inv pre hf ->
+  hf_inv (pre ++ ls) (fold_left hosts_add ls hf) /\ hf_le hf (fold_left hosts_add ls hf).
+Proof.
+  induction ls as [|l ls IH]; intros pre hf Hinv; cbn [fold_left].
+  - rewrite app_nil_r. split; [exact Hinv | apply hf_le_refl].
+  - destruct (hosts_add_step pre hf l Hinv) as (Hinv1 & S1 & S2 & S3 & _).
+    destruct (IH (pre ++ [l]) (hosts_add hf l) Hinv1) as (Hinv2 & Hle).
+    rewrite <- app_assoc in Hinv2. split; [exact Hinv2|].
+    eapply hf_le_trans; [|exact Hle]. split; [exact S1|]. split; [exact S2 | exact S3].
+Qed.
+
+Lemma hf_inv_empty : hf_inv [] hf_empty.
+Proof. split; [|split]; cbn; intros; discriminate. Qed.
+
+(* completeness 1: the FIRST line that mentions a name contributes its address to the entry the
+   name resolves to (later lines may add more, nothing is ever removed) *)
+Theorem hosts_first_mention pre l post x :
+  In x (hl_hosts l) ->
+  (forall l' y, In l' pre -> In y (hl_hosts l') -> strcaseeq y x = false) ->
+  exists e, hosts_search_host (hosts_build (pre ++ l :: post)) x = Some e /\ In (hl_ip l) (he_ips e).
+Proof.
+  intros Hx Hfirst. unfold hosts_build. rewrite fold_left_app. cbn [fold_left].
+  destruct (hosts_fold_grow pre [] hf_empty hf_inv_empty) as (Hinv1 & _). cbn [app] in Hinv1.
+  set (hf1 := fold_left hosts_add pre hf_empty) in *.
+  assert (Hnone : host_get (hf_hosthash hf1) x = None).
+  { destruct (host_get (hf_hosthash hf1) x) as [i|] eqn:E; [|reflexivity].
+    destruct Hinv1 as (_ & _ & I3). destruct (I3 x i E) as (l' & y & Hl' & Hy & Hc).
+    rewrite (Hfirst l' y Hl' Hy) in Hc. discriminate. }
+  destruct (hosts_add_step pre hf1 l Hinv1) as (Hinv2 & _ & _ & _ & (i & e' & _ & Ee & Hin & Hmap)).
+  specialize (Hmap x Hx Hnone).
+  destruct (hosts_fold_grow post (pre ++ [l]) (hosts_add hf1 l) Hinv2) as (_ & (L1 & _ & L3)).
+  destruct (L3 i e' Ee) as (e'' & Ee'' & Hincl).
+  exists e''. unfold hosts_search_host. rewrite (L1 x i Hmap). split; [exact Ee'' | apply Hincl; exact Hin].
+Qed.
+
+(* completeness 2: no line is dropped - the address of every line is found by the reverse
+   lookup, in an entry that contains it *)
+Theorem hosts_every_line pre l post :
+  exists e, hosts_search_ip (hosts_build (pre ++ l :: post)) (hl_ip l) = Some e /\ In (hl_ip l) (he_ips e).
+Proof.
+  unfold hosts_build. rewrite fold_left_app. cbn [fold_left].
+  destruct (hosts_fold_grow pre [] hf_empty hf_inv_empty) as (Hinv1 & _). cbn [app] in Hinv1.
+  set (hf1 := fold_left hosts_add pre hf_empty) in *.
+  destruct (hosts_add_step pre hf1 l Hinv1) as (Hinv2 & _ & _ & _ & (i & e' & Eip & Ee & Hin & _)).
+  destruct (hosts_fold_grow post (pre ++ [l]) (hosts_add hf1 l) Hinv2) as (_ & (_ & L2 & L3)).
+  destruct (L3 i e' Ee) as (e'' & Ee'' & Hincl).
+  exists e''. unfold hosts_search_ip. rewrite (L2 _ i Eip). split; [exact Ee'' | apply Hincl; exact Hin].
+Qed.
+
+(* hence the forward lookup of a name delivers the address of the first line that mentions it,
+   whenever the family asks for it *)
+Theorem hosts_first_mention_node pre l post x family port :
+  In x (hl_hosts l) ->
+  (forall l' y, In l' pre -> In y (hl_hosts l') -> strcaseeq y x = false) ->
+  (family = LEG_AF_UNSPEC \/ family = fst (hl_ip l)) ->
+  In (mkNode (fst (hl_ip l)) (snd (hl_ip l)) port 0) (spec_hosts_nodes (hosts_build (pre ++ l :: post)) x family port).
+Proof.
+  intros Hx Hfirst Hfam. destruct (hosts_first_mention pre l post x Hx Hfirst) as (e & Ee & Hin).
+  unfold spec_hosts_nodes. rewrite Ee. apply in_map_iff. exists (hl_ip l). split; [reflexivity|].
+  apply filter_In. split; [exact Hin|]. destruct Hfam as [-> | ->]; [reflexivity | rewrite Z.eqb_refl; apply orb_true_r].
+Qed.
